@@ -39,6 +39,10 @@ def main():
     mod = importlib.import_module('props.' + prop.lower())
     os.chdir(common.REPO)
 
+    if not args.replay:
+        import glob
+        for old in glob.glob(os.path.join(common.VERIF, 'replays', prop + '_*.json')):
+            os.remove(old)
     if args.replay:
         payload = json.load(open(args.replay))
         ok = mod.replay(ctx, payload)
